@@ -65,6 +65,10 @@ MUTANTS = [
      "= hdulist[0].header\n",
      "    if compressed and band[1] > 1:\n        hdulist = expand(filename)"
      "\n        header = hdulist[0].header\n", "C15-R4"),
+    ("last node moved to the true edge pixel (seed C15c)",
+     "AegeanTools/fits_tools.py",
+     "    # Do the interpolation\n",
+     "    if lcx > 0:\n        rows[-1] = rows[-2] + lcx - 1\n    # Do the interpolation\n", "C15-R3"),
 ]
 TWINS = [
     ("crpix rewritten", "AegeanTools/fits_tools.py",
@@ -339,6 +343,24 @@ def run(ctx):
                   sp.simplify(e0 - k * f) == 0,
                   "node k of axis %d must sit at k*factor (residual < "
                   "factor); found %s" % (axis, e0), {"expr": str(e)}, d[0])
+    # ... and nothing edits the node arrays afterwards
+    for nm in ("rows", "cols"):
+        edits = []
+        for st in walk_no_nested(exp.node):
+            tg = st.targets if isinstance(st, ast.Assign) else (
+                [st.target] if isinstance(st, ast.AugAssign) else [])
+            for t in tg:
+                if isinstance(t, ast.Subscript) and norm(t.value) == nm or \
+                        (isinstance(st, ast.AugAssign) and norm(t) == nm):
+                    edits.append(st)
+        ctx.check("C15-R3", exp, "node array %s is not edited after its "
+                  "definition" % nm, not edits,
+                  "%s moves interpolation nodes away from k*factor: the "
+                  "decimated samples are attributed to other pixels, and "
+                  "when the moved node coincides with its neighbour (axis "
+                  "length = q*factor + 1) the interpolator rejects the "
+                  "grid" % [norm(e, 60) for e in edits],
+                  node=edits[0] if edits else exp.node)
     interp = [c for c in walk_no_nested(exp.node) if isinstance(c, ast.Call)
               and norm(c.func).endswith("RegularGridInterpolator")]
     oki = bool(interp) and norm(interp[0].args[0]).replace(" ", "") == \
